@@ -33,25 +33,67 @@ theorem encodePairsHeap_eq_spec (c : BpeCtx) (hr : ∀ b, rankOf c b ≤ MAXR) (
     | .panic _ => ∃ q, encodePairsHeap c fb piece pre res us suffixed = .panic q :=
   Kitoken.Proofs.BpeEncode.encodePairsHeap_eq_spec c hr fb piece pre res us suffixed hu
 
+/- ORIGINAL STATEMENT (FALSE as written; kept for reference):
+
+   theorem encodePart_eq_spec (c : BpeCtx) (hw : BpeWF c) (text : Bytes) (htext : text ≠ [])
+       (buffer : List RankedPart) (res : List Id) :
+       match bpePieceSpec c text with
+       | .ok ids => ∃ buf, encodePart c (text ++ c.eow.getD []) buffer res = .ok (buf, res ++ ids)
+       | .err e => encodePart c (text ++ c.eow.getD []) buffer res = .err e
+       | .panic _ => ∃ q, encodePart c (text ++ c.eow.getD []) buffer res = .panic q
+
+   Counterexample (character mode, heap strategy, text that is not valid UTF-8): `encode_chars` declares the
+   unit widths as `ch.len_utf8()` of the lossily decoded character; an invalid byte decodes to U+FFFD
+   (`len_utf8 = 3`) but consumes 1–3 bytes, so the heap nodes get widths that overlap their successors
+   (the linear strategy only uses the unit starts and is not affected). With
+     c = { tok := fun _ => none, rank := fun _ => none, unknown := none, eow := none, chars := true,
+           fallback := [], maxTok := 0, minTok := 0 }          -- `BpeWF c` holds
+     text = List.replicate 193 0xFF                            -- 193 > ENCODE_LINEAR_LIMIT = 192
+   `bpePieceSpec c text = .err (.invalidPiece [255])` but
+   `encodePart c text [] [] = .err (.invalidPiece [255, 255, 255])` (checked with `#eval`; with 192 bytes
+   both give `[255]`). With `tok := fun b => if b = [255, 255, 255] then some 7 else none`,
+   `fallback := [.skip]`, `minTok = maxTok = 3` the specification yields `.ok []` and the model `.ok` of
+   191 tokens `7` (the "spelling" would be 573 bytes for a 193-byte text).
+   Machine-checked refutation: `Kitoken.Proofs.BpeEncode.encodePart_eq_spec_unrestricted_false`.
+   Minimal repair: hypothesis `hv` — in character mode, a text long enough for the heap strategy is valid
+   UTF-8 (always the case for Rust `&str` input that was not cut inside a character). -/
+
 /-- One part (short or long, byte or character mode, with or without suffix): what is appended to the
-    result is `bpePieceSpec` of the part's text, whatever the scratch buffer held before. -/
-theorem encodePart_eq_spec (c : BpeCtx) (hw : BpeWF c) (text : Bytes) (htext : text ≠ [])
+    result is `bpePieceSpec` of the part's text, whatever the scratch buffer held before. In character
+    mode with the heap strategy the text must be valid UTF-8. -/
+theorem encodePart_eq_spec_partial (c : BpeCtx) (hw : BpeWF c) (text : Bytes) (htext : text ≠ [])
+    (hv : c.chars = true → useHeap (Utf8.charIndices text).length = true → validUtf8 text = true)
     (buffer : List RankedPart) (res : List Id) :
     match bpePieceSpec c text with
     | .ok ids => ∃ buf, encodePart c (text ++ c.eow.getD []) buffer res = .ok (buf, res ++ ids)
     | .err e => encodePart c (text ++ c.eow.getD []) buffer res = .err e
     | .panic _ => ∃ q, encodePart c (text ++ c.eow.getD []) buffer res = .panic q :=
-  Kitoken.Proofs.BpeEncode.encodePart_eq_spec c hw text htext buffer res
+  Kitoken.Proofs.BpeEncode.encodePart_eq_spec_partial c hw text htext hv buffer res
+
+/- ORIGINAL STATEMENT (FALSE as written, same counterexample with `parts = [{ text, special := INVALID }]`,
+   machine-checked refutation `Kitoken.Proofs.BpeEncode.encode_eq_flatMap_unrestricted_false`;
+   kept for reference):
+
+   theorem bpe_encode_eq_flatMap (c : BpeCtx) (hw : BpeWF c) (parts : List TextPart)
+       (hne : ∀ p ∈ parts, p.special = INVALID → p.text ≠ []) :
+       (match seqRes (parts.map (perPart (bpePieceSpec c))) with
+        | .ok ids => Bpe.encode c parts = .ok ids
+        | .err e => Bpe.encode c parts = .err e
+        | .panic _ => ∃ q, Bpe.encode c parts = .panic q)
+
+   Minimal repair: hypothesis `hv` as in `encodePart_eq_spec_partial`, for every ordinary part. -/
 
 /-- C09 for BPE: the encoding of a list of parts is the in-order concatenation of the encodings of the
     parts taken alone (recognized specials are their ids); nothing carries over between parts. -/
-theorem bpe_encode_eq_flatMap (c : BpeCtx) (hw : BpeWF c) (parts : List TextPart)
-    (hne : ∀ p ∈ parts, p.special = INVALID → p.text ≠ []) :
+theorem bpe_encode_eq_flatMap_partial (c : BpeCtx) (hw : BpeWF c) (parts : List TextPart)
+    (hne : ∀ p ∈ parts, p.special = INVALID → p.text ≠ [])
+    (hv : ∀ p ∈ parts, p.special = INVALID → c.chars = true →
+      useHeap (Utf8.charIndices p.text).length = true → validUtf8 p.text = true) :
     (match seqRes (parts.map (perPart (bpePieceSpec c))) with
      | .ok ids => Bpe.encode c parts = .ok ids
      | .err e => Bpe.encode c parts = .err e
      | .panic _ => ∃ q, Bpe.encode c parts = .panic q) :=
-  Kitoken.Proofs.BpeEncode.encode_eq_flatMap c hw parts hne
+  Kitoken.Proofs.BpeEncode.encode_eq_flatMap_partial c hw parts hne hv
 
 /-- C09 for WordPiece. -/
 theorem wordpiece_encode_eq_flatMap (c : WpCtx) (parts : List TextPart) :
@@ -59,7 +101,7 @@ theorem wordpiece_encode_eq_flatMap (c : WpCtx) (parts : List TextPart) :
   Kitoken.Proofs.BpeEncode.wordpiece_encode_eq_flatMap c parts
 
 /-- No panic: with well-formed context the BPE encoder never panics (the suffix subtraction sites
-    repaired in F7 are unreachable). -/
+    repaired in F7 are unreachable) — also on text that is not valid UTF-8. -/
 theorem bpe_no_panic (c : BpeCtx) (hw : BpeWF c) (parts : List TextPart)
     (hne : ∀ p ∈ parts, p.special = INVALID → p.text ≠ []) :
     (Bpe.encode c parts).isPanic = false :=
